@@ -154,7 +154,8 @@ def execute(desc, ctx):
         ctx.nontrivial(True)
         stats = None
     else:
-        p = desc['map']['preserve_ids']
+        build_p = desc['map']['preserve_ids']
+        p = desc['map'].get('parse_preserve_ids', build_p)
         stats = vmfgen.desc_stats(desc['map'])
         m = vmfgen.build_vmf(desc['map'])
         for k, n in stats.items():
@@ -163,13 +164,28 @@ def execute(desc, ctx):
         ctx.label(*sorted(stats['labels']))
         if stats['max_power']:
             ctx.label(f'disp_power_{stats["max_power"]}')
+    want_raw = vmfgen.vmf_content(m)
+    if 'file' not in desc:
+        id_defs = vmfgen.content_ids(want_raw)
+        if build_p and not p and any(len(v) != len(set(v)) for v in id_defs.values()):
+            # an id repeated within a kind cannot be re-parsed without preserve_ids "up to a consistent renumbering"
+            p = True
+            ctx.label('ids:fallback_preserve')
+        if build_p:
+            ctx.label('ids:built_preserving')
+        clash = set(id_defs['group']) & set(id_defs['vis'])
+        if not p and clash:
+            ctx.label('ids:cross_kind_clash')
+            refs = {g for e in want_raw['entities'] for g in e['groups']['v']}
+            refs |= {s['group_id']['v'] for s in want_raw['world']['solids'] if s['group_id'] is not None}
+            if refs & clash:
+                ctx.label('ids:cross_kind_clash_with_members')
     ctx.label('preserve_ids' if p else 'renumber_ids')
     if minimal:
         ctx.label('opt_minimal')
     if not mb:
         ctx.label('opt_no_multiblend')
 
-    want_raw = vmfgen.vmf_content(m)
     t1 = m.export(inc_version=False, minimal=minimal, disp_multiblend=mb)
     kv1 = Keyvalues.parse(t1)
     m2 = VMF.parse(kv1, preserve_ids=p)
@@ -246,6 +262,158 @@ exec_meta = _mk(lambda s: s['visgroups'] or s['cameras'] or s['cordons'] or s['v
 exec_whole = _mk(lambda s: (s['brush_ents'] or s['disps']) and (s['outputs'] or s['fixups']))
 
 
+# ---- second generation: edit a parsed map in place, export/parse it again, and parse the first text once more --------------------
+
+def cfg_second_gen(tier):
+    return GenConfig(disp_weight=0.25, max_disp_power=2, meta=False, membership=False, max_ents=2, max_keys=3, max_outputs=1,
+                     max_fixups=1, max_world_solids=2, max_ent_solids=1, max_sides=3, nasty=0.1, nodeid=False, strata=False)
+
+
+_EDIT_KEYS = st.sampled_from(['targetname', 'origin', 'skin', 'Angles', 'spawnflags'])
+
+
+def edit_strategy():
+    ref = st.integers(0, 40)
+    num = vmfgen.coords()
+    scale = st.sampled_from([0.25, 0.5, 1.0, 2.0, -0.125, 3.0])
+    return st.one_of(
+        st.tuples(st.sampled_from(['uoffset', 'voffset']), ref, ref, num).map(list),
+        st.tuples(st.sampled_from(['uscale', 'vscale']), ref, ref, scale).map(list),
+        st.tuples(st.just('translate'), ref, st.lists(st.integers(-512, 512).map(float), min_size=3, max_size=3)).map(list),
+        st.tuples(st.just('setkey'), ref, _EDIT_KEYS, vmfgen.any_text()).map(list),
+        st.tuples(st.just('delkey'), ref, _EDIT_KEYS).map(list),
+        st.tuples(st.just('dispvert'), ref, ref, ref, vmfgen.vec3(), vmfgen.exact_floats()).map(list),
+    )
+
+
+def strat_second_gen(tier):
+    return st.fixed_dictionaries({
+        'map': vmfgen.map_descs(cfg_second_gen(tier)),
+        'opts': st.just({'minimal': False, 'disp_multiblend': True}),
+        'edits': st.lists(edit_strategy(), min_size=1, max_size=8),
+    })
+
+
+def apply_edits(vmf, content, edits):
+    """Interpret the edit list against the real map (public API) and, independently, against a copy of its walker content
+    taken before the edits.  References are indexes modulo the pool sizes.  Returns (expected content, applied counts)."""
+    import copy
+    from srctools.math import Vec
+    exp = copy.deepcopy(content)
+    solids = list(vmf.brushes) + [s for e in vmf.entities for s in e.solids]
+    xsolids = list(exp['world']['solids']) + [s for e in exp['entities'] for s in e['solids']]
+    applied = {'uv': 0, 'translate': 0, 'key': 0, 'dispvert': 0}
+    for ed in edits:
+        kind = ed[0]
+        if kind in ('uoffset', 'voffset', 'uscale', 'vscale', 'dispvert', 'translate'):
+            if not solids:
+                continue
+            si = ed[1] % len(solids)
+            solid, xsolid = solids[si], xsolids[si]
+        if kind in ('uoffset', 'voffset', 'uscale', 'vscale'):
+            fi = ed[2] % len(solid.sides)
+            axis = solid.sides[fi].uaxis if kind[0] == 'u' else solid.sides[fi].vaxis
+            xaxis = xsolid['sides'][fi]['uaxis' if kind[0] == 'u' else 'vaxis']
+            if kind.endswith('offset'):
+                axis.offset = ed[3]
+                xaxis[3] = vmfgen.C(ed[3])
+            else:
+                axis.scale = ed[3]
+                xaxis[4] = vmfgen.C(ed[3])
+            applied['uv'] += 1
+        elif kind == 'translate':
+            # Side.translate() divides by the axis scales: only defined for non-zero scales
+            if any(abs(sd['uaxis'][4]['v']) < 1e-3 or abs(sd['vaxis'][4]['v']) < 1e-3 for sd in xsolid['sides']):
+                continue
+            solid.translate(Vec(*ed[2]))
+            for sd in xsolid['sides']:
+                sd['planes'] = [[vmfgen.C(c['v'] + d) for c, d in zip(pl, ed[2])] for pl in sd['planes']]
+                sd['uaxis'][3] = sd['vaxis'][3] = vmfgen.ANY      # texture offsets follow the move; their value is not judged here
+            applied['translate'] += 1
+        elif kind == 'dispvert':
+            fi = ed[2] % len(solid.sides)
+            side, xside = solid.sides[fi], xsolid['sides'][fi]
+            if xside['disp'] is None:
+                continue
+            size = side.disp_size
+            vi = ed[3] % (size * size)
+            vert = side[vi % size, vi // size]
+            vert.offset = Vec(*ed[4])
+            vert.distance = ed[5]
+            xside['disp']['verts'][vi]['o'] = [vmfgen.C(c) for c in ed[4]]
+            xside['disp']['verts'][vi]['d'] = vmfgen.X(ed[5])
+            applied['dispvert'] += 1
+        elif kind in ('setkey', 'delkey'):
+            if not vmf.entities:
+                continue
+            ei = ed[1] % len(vmf.entities)
+            ent, xent = vmf.entities[ei], exp['entities'][ei]
+            fold = ed[2].casefold()
+            if kind == 'setkey':
+                ent[ed[2]] = ed[3]
+                for pair in xent['keys']:
+                    if pair[0].casefold() == fold:
+                        pair[1] = ed[3]
+                        break
+                else:
+                    xent['keys'].append([ed[2], ed[3]])
+                    xent['keys'].sort(key=lambda pr: pr[0])
+            else:
+                del ent[ed[2]]
+                xent['keys'] = [pr for pr in xent['keys'] if pr[0].casefold() != fold]
+            applied['key'] += 1
+    return exp, applied
+
+
+def exec_second_gen(desc, ctx):
+    from srctools.keyvalues import Keyvalues
+    from srctools.vmf import VMF
+    mdesc = desc['map']
+    build_p = mdesc['preserve_ids']
+    p = mdesc.get('parse_preserve_ids', build_p)
+    m = vmfgen.build_vmf(mdesc)
+    ids0 = vmfgen.content_ids(vmfgen.vmf_content(m))
+    if build_p and not p and any(len(v) != len(set(v)) for v in ids0.values()):
+        p = True
+    t1 = m.export(inc_version=False)
+    m2 = VMF.parse(Keyvalues.parse(t1), preserve_ids=p)
+    snap2 = vmfgen.vmf_content(m2)                     # first parse, before any edit
+
+    expected, applied = apply_edits(m2, snap2, desc['edits'])
+    for k, n in applied.items():
+        if n:
+            ctx.label('edit:' + k)
+    edited = vmfgen.vmf_content(m2)
+    diffs = vmfgen.diff_content(expected, edited, ids='exact')
+    if diffs:
+        lines = '\n'.join(f'  {pth}: want {x!r} got {y!r}'[:400] for pth, x, y in diffs)
+        ctx.fail('edit_isolation', 'editing a parsed map in place changed something other than the edited objects (or not the edited '
+                 f'ones); edits={desc["edits"]!r}\n{lines}', field=_field(diffs[0][0]))
+
+    # third generation: the edited map round-trips like any other
+    t3 = m2.export(inc_version=False)
+    m3 = VMF.parse(Keyvalues.parse(t3), preserve_ids=p)
+    want = vmfgen.normalise_roundtrip(edited)
+    got = vmfgen.normalise_roundtrip(vmfgen.vmf_content(m3))
+    diffs = vmfgen.diff_content(want, got, ids='exact' if p else 'renumber')
+    if diffs:
+        lines = '\n'.join(f'  {pth}: want {x!r} got {y!r}'[:400] for pth, x, y in diffs)
+        ctx.fail('content_gen2', f'edited map differs after export -> parse (preserve_ids={p}); edits={desc["edits"]!r}\n{lines}',
+                 field=_field(diffs[0][0]))
+
+    # parsing the ORIGINAL text again must give what the first parse gave: no state may leak between parses / from the edits
+    m1b = VMF.parse(Keyvalues.parse(t1), preserve_ids=p)
+    again = vmfgen.vmf_content(m1b)
+    diffs = vmfgen.diff_content(snap2, again, ids='exact')
+    if diffs:
+        lines = '\n'.join(f'  {pth}: first parse {x!r} second parse {y!r}'[:400] for pth, x, y in diffs)
+        ctx.fail('reparse_state_leak', 'parsing the same text a second time (after the first result was edited in place) gives a '
+                 f'different map; edits={desc["edits"]!r}\n{lines}', field=_field(diffs[0][0]))
+    if applied['uv'] or applied['translate']:
+        ctx.label('second_gen:edited_then_reparsed')
+    ctx.nontrivial(sum(applied.values()) > 0)
+
+
 SUBCHECKS = [
     Sub('keyvalues', exec_keyvalues, strategy=_strat(cfg_keyvalues, min_ents=1), quick=800, thorough=20000, floor=300,
         must_hit=('hidden_ents', 'comments', 'logical_pos', 'nasty_keys', 'nasty_values', 'nodeid', 'preserve_ids', 'renumber_ids')),
@@ -254,7 +422,8 @@ SUBCHECKS = [
     Sub('fixups', exec_fixups, strategy=_strat(cfg_fixups, min_ents=1), quick=600, thorough=14000, floor=200,
         must_hit=('fixups', 'nasty_fixup_vars')),
     Sub('membership', exec_membership, strategy=_strat(cfg_membership), quick=600, thorough=10000, floor=200,
-        must_hit=('ent_groups', 'ent_vis', 'solid_groups', 'groups', 'visgroups', 'hidden_ents', 'hidden_solids', 'opt_minimal')),
+        must_hit=('ent_groups', 'ent_vis', 'solid_groups', 'groups', 'visgroups', 'hidden_ents', 'hidden_solids', 'opt_minimal',
+                  'ids:cross_kind_clash', 'ids:cross_kind_clash_with_members', 'ids:built_preserving')),
     Sub('brushes', exec_brushes, strategy=_strat(cfg_brushes), quick=500, thorough=10000, floor=150,
         must_hit=('prisms', 'raw_solids', 'hidden_solids', 'world_brushes', 'brush_ents', 'strata_points', 'nasty_mats')),
     Sub('displacements', exec_disps, strategy=_strat(cfg_disps), quick=400, thorough=4000, floor=80,
@@ -263,7 +432,10 @@ SUBCHECKS = [
     Sub('meta', exec_meta, strategy=_strat(cfg_meta), quick=600, thorough=10000, floor=250,
         must_hit=('visgroups', 'nested_visgroups', 'cameras', 'cordons', 'viewports', 'inst_vis', 'opt_minimal')),
     Sub('whole', exec_whole, strategy=_strat(cfg_whole), quick=300, thorough=5000, floor=60,
-        must_hit=('brush_ents', 'disps', 'outputs', 'fixups', 'visgroups', 'groups', 'opt_minimal', 'opt_no_multiblend')),
+        must_hit=('brush_ents', 'disps', 'outputs', 'fixups', 'visgroups', 'groups', 'opt_minimal', 'opt_no_multiblend',
+                  'ids:cross_kind_clash')),
+    Sub('second_generation', exec_second_gen, strategy=strat_second_gen, quick=300, thorough=5000, floor=60,
+        must_hit=('second_gen:edited_then_reparsed', 'edit:uv', 'edit:translate', 'edit:key', 'edit:dispvert')),
     Sub('samples', _mk(lambda s: True), fixed=sample_cases, floor=1, must_hit=('sample',), quick_shards=1, thorough_shards=1),
 ]
 
